@@ -77,6 +77,39 @@ func init() {
 	})
 }
 
+var concRealStub = map[string]string{
+	"queue.SQLiteStore incl. schema, triggers, pooled connection (database/sql), modernc SQLite": "real",
+	"disk":      "simulated (shim VFS: writes pending until sync; kill and power-loss images; crash at a chosen disk operation of the concurrent block)",
+	"scheduler": "simulated: callers are real goroutines parked at a scheduling point before every statement of the instrumented SQLiteStore functions (go/ast overlay) and released one at a time by the seeded choice list; a caller waiting for the pooled connection or a mutex is recognised by its Go wait state and left out until it wakes",
+	"clock":     "simulated, constant during the concurrent block",
+	"reference": "the same store driven sequentially on a fresh database (linearizability with respect to its own sequential behaviour, which W-store judges against the contract model)",
+	"memory backend, HTTP/gRPC handlers": "not in this world",
+}
+
+func init() {
+	regC := func(prop string, crash int, rule string, quick, thorough int) {
+		prof := ConcProfile{Crash: crash, Sweep: 30}
+		if prop == "C12" {
+			prof.Limits = 8
+		}
+		Register(&CheckSpec{
+			Prop: prop, World: "conc",
+			Gen:        func(t *rapid.T) *Program { return GenConcProgram(t, prof) },
+			Run:        RunConcProgram,
+			NonTrivial: func(p *Program, r *Result) bool { return r.Probes["conc.interleaved"] > 0 },
+			Rule:       rule + "; non-trivial = the two callers really alternated (more than one switch between them); distinct = distinct (prefix kinds, calls per task, crash kind) shapes",
+			RealStub:   concRealStub,
+			Level:      "exploration",
+			Quick:      quick, Thorough: thorough,
+		})
+	}
+	regC("C01", 7, "concurrent callers + crash: prefix, then two callers with 1-3 store calls each interleaved statement by statement, a kill or power loss at a drawn disk operation of the block, restart on the image; calls that returned before the crash instant must all be reflected in the content after restart, calls in flight may or may not be (every subset tried), no other content is admissible; 3 in 100 programs are run under every single-preemption schedule (caller A for k decisions, then all of caller B, then the rest of A; crash at the instant B is done) instead of one drawn schedule", 5000, 400000)
+	regC("C03", 0, "concurrent callers: dequeues, settlements, operator cancels and enqueues of two callers interleaved statement by statement; the history (results incl. which message each dequeue leased under which attempt) must equal some sequential order, so no message is leased to both callers at once; 3 in 100 programs under every single-preemption schedule", 2500, 250000)
+	regC("C04", 0, "concurrent callers: ack/nack/extend/dead (single and batch) of one caller against dequeue, cancel, requeue and settlements of the other; results and final content must equal some sequential order: a lease that the other caller's call has voided or re-issued never settles the message; 3 in 100 programs under every single-preemption schedule", 2500, 250000)
+	regC("C12", 0, "concurrent callers at a small max_depth (reject and drop_oldest): single and batch enqueues of two callers interleaved statement by statement with dequeues, settlements and operator requeues; admissions, refusals, evictions and the final content must equal some sequential order, so the depth check and the insert (and, for drop_oldest, the eviction) are one step; 3 in 100 programs under every single-preemption schedule", 2500, 250000)
+	regC("C05", 3, "concurrent callers (+ crash in 3 of 10 runs): expired leases swept by one caller's dequeue while the other settles or dequeues; no ready message is lost or handed out twice in any interleaving; no deadlock between callers; 3 in 100 programs under every single-preemption schedule", 2500, 250000)
+}
+
 var sysRealStub = map[string]string{
 	"config.Parse/Compile, app.newRuntimeState/loadAuth/startServers/reloadConfig, ingress.Server + authenticators, pullapi/admin handlers, queue store": "real (node assembled by app.VerifNewNode from generated Hookaidofile text)",
 	"run() glue (flags, signals, pid file, tracing, watcher, trend ticker)":                                                                              "stub (left out)",
